@@ -593,6 +593,7 @@ class Gen:
         ctx = dict(ctx, vars=list(ctx["vars"]))
         n = r.below(1 + min(4, d + 1)) if nstmts is None else nstmts
         stmts = []
+        must_use = []       # values that must reach the block's result (so that a wrong one is visible)
         for _ in range(n):
             # known finding F20 (WASM: an `if` arm whose value comes out of a tuple built in that arm yields 0 when the
             # other arm is taken): no tuples are created inside `if` arms and `if` is float-typed in this profile
@@ -696,6 +697,7 @@ class Gen:
                         y = self.fresh()
                         stmts.append(("let", y, Node("app", Node("var", fname), [self.simple(d, ctx) for _ in ps])))
                         ctx["vars"].append((y, F, True))
+                        must_use.append(y)
                         self.bump("s_write_after_capture")
             else:
                 v = r.pick(mut)
@@ -707,6 +709,17 @@ class Gen:
             tail = self.simple(d, ctx)
         else:
             tail = self.simple_t(t, d, ctx)
+        if t == F and must_use:
+            if tail.kind == "if":
+                # an `if` as operand of arithmetic with aggregates built in its arms is the listed crash F17: bind it first
+                z = self.fresh()
+                inner = Node("var", z)
+                for y in must_use:
+                    inner = Node("bin", "add", inner, Node("var", y))
+                tail = Node("let", z, tail, inner)
+            else:
+                for y in must_use:
+                    tail = Node("bin", "add", tail, Node("var", y))
         for st in reversed(stmts):
             if st[0] == "let":
                 tail = Node("let", st[1], st[2], tail)
